@@ -469,6 +469,8 @@ class World:
                 return VClass('cartesian.Function' if getattr(obj, 'python', False) else obj.ar_factory)
             if name == 'ob_factory':
                 return VClass('rigid.Ty' if obj.ar_factory == 'rigid.Diagram' else 'monoidal.Ty')
+            if name == 'ob':
+                return VObject('functor.ob', {'functor': obj})      # the object mapping given by the user
             return VMethod(obj, name)
         if isinstance(obj, (VList, VTuple, VMethod, VOpaque, VInt, VStr)):
             return VMethod(obj, name)
@@ -497,6 +499,15 @@ class World:
                 return ex.ty_slice(obj, idx)
             if isinstance(idx, VInt):
                 return ex.ty_at(obj, idx.t)
+        if isinstance(obj, VObject) and obj.cls == 'functor.ob':
+            # F.ob[Ty(x)]: the image the user gave for a one-object type (precondition: it is given, and it is a type)
+            F = obj.attrs['functor']
+            if not isinstance(idx, VTy):
+                raise Unsupported('functor.ob[...] of a key that is not a type')
+            if not ex.entails(T.ty_len(idx.t) == 1):
+                raise Unsupported('functor.ob[...] of a type that is not one object')
+            ex.used.add('precondition: the object mapping of a functor is given for every one-object type and its values are types')
+            return VTy(F.FT(idx.t), cls='rigid' if F.ar_factory == 'rigid.Diagram' else None)
         if isinstance(obj, VArrow):
             return self.apply(interp, 'cat.Arrow.__getitem__', [obj, idx], {})
         if isinstance(obj, VDiagram):
@@ -614,11 +625,27 @@ class World:
         """F(t) for a type t: FT(t), with the homomorphism instance for the concatenation t is written as; for a
         functor on biclosed types also F(a << b) = F(a) << F(b), F(a >> b) = F(a) >> F(b) on the atomic parts"""
         ex = interp.ex
-        ex.used.add('axiom: the object map of a functor is a homomorphism on types (tensor branch of Functor.__call__)')
+        if getattr(F, 'adjoints', False):
+            # rigid.Functor has its own type branch (adjoints of any winding number): the snoc-recursion over the z-fold
+            # adjoints of the basic images (verified on the real branch and its local function), a homomorphism (lemma)
+            for u in ('rigid.Functor.__call__[Ty]', 'rigid.Functor.__call__.<locals>.adjoint', 'lemma:functor.homomorphism'):
+                ex.used.add(u)
+        elif getattr(F, 'slash', False):
+            # biclosed.Functor: several objects by its own tensor branch, none or one (not a slash) by monoidal.Functor's
+            for u in ('biclosed.Functor.__call__[Ty]', 'monoidal.Functor.__call__[Ty]', 'lemma:functor.homomorphism'):
+                ex.used.add(u)
+        else:
+            # monoidal.Functor: F on a type is the snoc-recursion D over the user's images (verified on the real type
+            # branch) and D is a homomorphism (lemma, by induction)
+            ex.used.add('monoidal.Functor.__call__[Ty]')
+            ex.used.add('lemma:functor.homomorphism')
         if getattr(F, 'python', False):
             ex.used.add('axiom: PythonFunctor sends a type to PRO(len) and a box to Function(len(dom), len(cod), box.function)')
         if getattr(F, 'adjoints', False):
-            ex.used.add('axiom: the object map of a rigid functor commutes with .l / .r (type branch of rigid.Functor.__call__)')
+            # F(t.l) == F(t).l, F(t.r) == F(t).r: lemmas by snoc-induction from the object-level statement
+            for u in ('lemma:functor.adjoint.object.l', 'lemma:functor.adjoint.object.r', 'lemma:functor.adjoint.type.l',
+                      'lemma:functor.adjoint.type.r'):
+                ex.used.add(u)
         if getattr(F, 'slash', False):
             ex.used.add('axiom: a functor on biclosed types is called recursively on the two sides of a slash type '
                         '(proved for the Over / Under branches, assumed at the recursive call sites)')
@@ -736,6 +763,8 @@ class World:
             return VClass(args[0].cls)
         if cls == 'py.type' and len(args) == 1 and isinstance(args[0], VBox) and getattr(args[0], 'pycls', None):
             return VClass(args[0].pycls)
+        if cls == 'py.type' and len(args) == 1 and isinstance(args[0], VOb):
+            return VClass('rigid.Ob')       # objects with a winding number (precondition of the rigid contracts)
         if cls == 'py.type' and len(args) == 1 and isinstance(args[0], VTy):
             # the class of a type: the model does not tell monoidal.Ty from its subclasses; what is done with the class
             # (calling it without arguments, its upgrade) is the same for all of them up to the verified upgrade contracts
@@ -816,6 +845,10 @@ class World:
         if isinstance(recv, VDiagram) and name == 'id':
             return self.apply(interp, 'monoidal.Id.__init__', args, kwargs, construct='monoidal.Id')
         if isinstance(recv, VTy):
+            if name == 'tensor' and len(args) == 1 and isinstance(args[0], VStar) and isinstance(args[0].seq, VList):
+                # t.tensor(*types) with a symbolic number of types: t ++ flatten(types) (verified: monoidal.Ty.tensor)
+                ex.used.add('monoidal.Ty.tensor')
+                return VTy(T.ty_concat(recv.t, ex.flat_of(args[0].seq).t))
             if name == 'tensor':
                 ts = [recv.t]
                 for a in args:
@@ -892,6 +925,14 @@ class World:
                 if q.endswith('.__init__'):
                     return self.apply(interp, q, args, kwargs, construct=q[:-9])
                 return self.apply(interp, q, args, kwargs)
+            if name == 'tensor' and recv.name in ('monoidal.Ty', 'rigid.Ty', 'biclosed.Ty') and len(args) == 1 \
+                    and isinstance(args[0], VStar) and isinstance(args[0].seq, VList):
+                # Ty.tensor(*types) on the class: the first type is `self`, i.e. types[0].tensor(*types[1:]) =
+                # flatten(types) when there is at least one (verified: monoidal.Ty.tensor); TypeError otherwise
+                if not ex.branch(args[0].seq.length() >= 1):
+                    raise PyRaise('TypeError', 'tensor() missing self')
+                ex.used.add('monoidal.Ty.tensor')
+                return VTy(ex.flat_of(args[0].seq).t, cls='rigid' if recv.name == 'rigid.Ty' else None)
             if name == 'upgrade' and recv.name in ('monoidal.Ty', 'rigid.Ty'):
                 ex.used.add(recv.name + '.upgrade')       # verified: the same objects (contracts/types.py)
                 return VTy(args[0].t, cls=args[0].cls)
@@ -1180,7 +1221,9 @@ BUILTINS = {
     'len': _len, 'range': _range, 'isinstance': _isinstance, 'getattr': lambda interp, o, n, *d: interp.world.getattr(interp, o, n.s), 'zip': _zip, 'enumerate': _enumerate,
     'list_index': _list_index, 'all': _all_any(True), 'any': _all_any(False), 'getattr': _getattr,
     'min': _min_max(True), 'max': _min_max(False), 'sum': _sum, 'reversed': _reversed,
-    'hasattr': lambda interp, obj, name: VBool(False),
+    'hasattr': lambda interp, obj, name: VBool(isinstance(obj, VOb) and getattr(name, 's', None) == 'z'),
+    'map': lambda interp, fn, lst: interp.ex.list_map(interp.world.as_sequence(interp, lst),
+                                                     lambda x: interp.world.call(interp, fn, [x], {}, None), 'map'),
 }
 
 
